@@ -6,7 +6,7 @@ from lib import symx, ch
 LEVEL = 'model_checking'
 MANIFEST = {'category': 'model_checking', 'engine': 'sre2smt+crosshair+symx+z3',
  'technique': 'regular-language queries (z3) on the live stripping regex vs every colour wrapper the code can emit; CrossHair on color()/no_color() with symbolic text; exhaustive structure exploration (symx choose) of every renderer with colour on and off; paste-back of coloured matcher/command texts',
- 'text': 'Lemma (any text length): for every colour code used in the repository, the wrapper ESC[<code>m is removed exactly (the stripping regex matches the wrapper, matches no longer prefix whatever follows, and matches nothing that does not start with ESC), so no_color(color(c, t)) == t for every t without ESC; confirmed independently by CrossHair for |t| <= 3 on the real functions. Structure: every renderer (all argument kinds, labels, names, typed/untyped, resolved/unresolved objects, destroyed annotation, both directions, connection descriptions, notices, list/filter/breakpoint/connection/help output, matcher printing) run with colour on and off on the same structure with payloads from a pool that includes quotes, backslashes, spaces and non-ASCII text: stripped coloured output equals plain output, plain output has no ESC. Paste-back: coloured matcher/command text parses to the same matcher / dispatches the same command. String arguments of every length 0..128 (and 200..4096) render the same with and without colour.',
+ 'text': 'Lemma (any text length): for every colour code used in the repository, the wrapper ESC[<code>m is removed exactly (the stripping regex matches the wrapper, matches no longer prefix whatever follows, and matches nothing that does not start with ESC), so no_color(color(c, t)) == t for every t without ESC; confirmed independently by CrossHair for |t| <= 3 on the real functions. Structure: every renderer (all argument kinds, labels, names, typed/untyped, resolved/unresolved objects, destroyed annotation, both directions, connection descriptions, notices, list/filter/breakpoint/connection/help output, matcher printing) run with colour on and off on the same structure with payloads from a pool that includes quotes, backslashes, spaces and non-ASCII text: stripped coloured output equals plain output, plain output has no ESC. Paste-back: coloured matcher/command text parses to the same matcher / dispatches the same command. String arguments of every length 0..128 (and 200..4096) render the same with and without colour. Which colour mode a run is in follows the documented options for all 9 x 2 x 2 x 2 combinations; a run in the no-colour mode emits no escape sequence.',
  'note': 'What carries the result from the payload pool to arbitrary payloads is the lemma plus the observation (visible on every explored path) that payload text reaches the output only through color(), repr() and concatenation - that last step is an argument, not a solver result. Payload containing ESC itself is input, not the tool\'s own colouring.'}
 EXPLANATION = MANIFEST['text']
 ASSUMPTIONS = ['re.sub removes leftmost non-overlapping matches (library semantics)', 'payload pool as listed in the evidence']
